@@ -1,6 +1,7 @@
 package main
 
 import (
+	"os"
 	"fmt"
 	"go/ast"
 	"go/constant"
@@ -300,51 +301,56 @@ func runC17(c *Ctx) {
 			}
 			c.check(n == 7, "R1", "seven file types", "stat.go", "7 cases", fmt.Sprintf("%d type cases", n))
 		}
-		// toChmodPerm
-		if fd, info := p.FuncDecl(pkgSftp, "", "toChmodPerm"); fd == nil {
+		// toChmodPerm: what it keeps and what it sends for each special bit, by running it (whatever its constants and
+		// helpers are called)
+		if fn := p.Func("toChmodPerm"); fn == nil || len(fn.Params) != 1 {
 			c.missing("R1", "toChmodPerm")
 		} else {
-			var mask int64 = -1
-			specials := map[int64]int64{}
-			ast.Inspect(fd.Body, func(n ast.Node) bool {
-				switch x := n.(type) {
-				case *ast.ValueSpec:
-					if len(x.Values) == 1 {
-						if v, ok := constOfAny(info, x.Values[0]); ok && x.Names[0].Name == "mask" {
-							mask = v
-						}
-					}
-				case *ast.IfStmt:
-					if b, ok := ast.Unparen(x.Cond).(*ast.BinaryExpr); ok && b.Op == token.NEQ {
-						if bit, ok := andWithConst(info, b.X); ok && len(x.Body.List) == 1 {
-							if as, ok := x.Body.List[0].(*ast.AssignStmt); ok && as.Tok == token.OR_ASSIGN {
-								if v, ok := constOfAny(info, as.Rhs[0]); ok {
-									specials[bit] = v
-								}
-							}
-						}
-					}
+			call := func(v int64) (int64, bool) {
+				st := newEvaluator(p).run(fn, []evVal{evInt(v, fn.Params[0].Type())}, 0)
+				if st.kind != "return" || len(st.vals) != 1 || st.vals[0].k != evConst || st.vals[0].c.Kind() != constant.Int {
+					return 0, false
 				}
-				return true
-			})
-			c.check(mask == M("ModePerm")|0o7000, "R1", "toChmodPerm mask", "client.go", "ModePerm | POSIX special bits", fmt.Sprintf("toChmodPerm keeps %#o", mask))
+				u, ok := constant.Uint64Val(constant.ToInt(st.vals[0].c))
+				return int64(u), ok
+			}
+			low, ok1 := call(0o7777)
+			typeBits := M("ModeDir") | M("ModeSymlink") | M("ModeNamedPipe") | M("ModeSocket") | M("ModeDevice") | M("ModeCharDevice") | M("ModeAppend") | M("ModeExclusive") | M("ModeTemporary") | M("ModeIrregular")
+			high, ok2 := call(typeBits)
+			if !ok1 || !ok2 {
+				c.und("R1", "toChmodPerm mask", "client.go", "toChmodPerm cannot be evaluated")
+			} else {
+				c.check(low == 0o7777 && high == 0, "R1", "toChmodPerm mask", "client.go", "ModePerm | POSIX special bits", fmt.Sprintf("toChmodPerm keeps %#o of the low twelve bits and sends %#o for the type bits", low, high))
+			}
 			for w, o := range oracleSpecial {
-				c.check(specials[o] == w, "R1", fmt.Sprintf("toChmodPerm special of os %#x", o), "client.go", fmt.Sprintf("→ %#o", specials[o]), fmt.Sprintf("os bit %#x is sent as %#o, expected %#o", o, specials[o], w))
+				got, ok := call(o)
+				if !ok {
+					c.und("R1", fmt.Sprintf("toChmodPerm special of os %#x", o), "client.go", "toChmodPerm cannot be evaluated")
+					continue
+				}
+				c.check(got == w, "R1", fmt.Sprintf("toChmodPerm special of os %#x", o), "client.go", fmt.Sprintf("→ %#o", got), fmt.Sprintf("os bit %#x is sent as %#o, expected %#o", o, got, w))
 			}
 		}
-		// isRegular
-		if fd, info := p.FuncDecl(pkgSftp, "", "isRegular"); fd != nil {
-			okR := false
-			if len(fd.Body.List) == 1 {
-				if r, ok := fd.Body.List[0].(*ast.ReturnStmt); ok {
-					if b, ok := ast.Unparen(r.Results[0]).(*ast.BinaryExpr); ok && b.Op == token.EQL {
-						m, ok1 := andWithConst(info, b.X)
-						v, ok2 := constOfAny(info, b.Y)
-						okR = ok1 && ok2 && m == 0xF000 && v == 0x8000
+		// isRegular: true for S_IFREG alone, by running it for the 16 values of the type field
+		if ir := p.Func("isRegular"); ir != nil && len(ir.Params) == 1 {
+			okR, und := true, false
+			for t := int64(0); t < 16; t++ {
+				for _, perm := range []int64{0, 0o644, 0o7777} {
+					res := newEvaluator(p).run(ir, []evVal{evInt(t<<12|perm, ir.Params[0].Type())}, 0)
+					if res.kind != "return" || len(res.vals) != 1 || res.vals[0].k != evConst || res.vals[0].c.Kind() != constant.Bool {
+						und = true
+						continue
+					}
+					if constant.BoolVal(res.vals[0].c) != (t == 8) {
+						okR = false
 					}
 				}
 			}
-			c.check(okR, "R1", "isRegular", "stat.go", "mode&S_IFMT == S_IFREG", "isRegular no longer tests the type field against S_IFREG")
+			if und {
+				c.und("R1", "isRegular", "stat.go", "isRegular cannot be evaluated")
+			} else {
+				c.check(okR, "R1", "isRegular", "stat.go", "mode&S_IFMT == S_IFREG", "isRegular no longer tests the type field against S_IFREG")
+			}
 		}
 		// type letters of the long name
 		if fd, info := p.FuncDeclIn(pkgSshfx, "FileMode", "String"); fd != nil {
@@ -1174,6 +1180,9 @@ func evalModeFunc(p *Program, name string, wireToOS bool) (*modeTable, string) {
 		argT := fn.Params[0].Type()
 		st := ev.run(fn, []evVal{evInt(arg, argT)}, 0)
 		if st.kind != "return" || len(st.vals) != 1 || st.vals[0].k != evConst {
+			if debugEval {
+				fmt.Fprintf(os.Stderr, "eval: %s(%#x) ended %s %s vals=%v\n", name, arg, st.kind, st.why, st.vals)
+			}
 			return 0, false
 		}
 		u, ok := constant.Uint64Val(constant.ToInt(st.vals[0].c))
